@@ -12,10 +12,10 @@ using namespace xr;
 static std::string g_echsx, g_shim;
 static bool g_trace = false;
 
-struct Case { int row = 4; long osize = 0, esize = 0; int exitc = 0, sig = 0; int bash = 0; int umask = 022; int ifile = 0; int mailrun = 0; int att = 1; int concurrent = 1; };
+struct Case { int row = 4; long osize = 0, esize = 0; int exitc = 0, sig = 0; int bash = 0; int umask = 022; int ifile = 0; int mailrun = 0; int att = 1; int concurrent = 1; int nap = 0; };   // nap: the job also sleeps that many ms (run times that cross a clock second)
 
-static std::string ctext(const Case &c) { char b[256]; snprintf(b, sizeof b, "row=%d osize=%ld esize=%ld exit=%d sig=%d bash=%d umask=0%o ifile=%d mailrun=%d att=%d concurrent=%d", c.row, c.osize, c.esize, c.exitc, c.sig, c.bash, c.umask, c.ifile, c.mailrun, c.att, c.concurrent); return b; }
-static bool cparse(const std::string &t, Case &c) { unsigned um = 022; int n = sscanf(t.c_str(), "row=%d osize=%ld esize=%ld exit=%d sig=%d bash=%d umask=%o ifile=%d mailrun=%d att=%d concurrent=%d", &c.row, &c.osize, &c.esize, &c.exitc, &c.sig, &c.bash, &um, &c.ifile, &c.mailrun, &c.att, &c.concurrent); c.umask = (int)um; return n == 11; }
+static std::string ctext(const Case &c) { char b[256]; snprintf(b, sizeof b, "row=%d osize=%ld esize=%ld exit=%d sig=%d bash=%d umask=0%o ifile=%d mailrun=%d att=%d concurrent=%d", c.row, c.osize, c.esize, c.exitc, c.sig, c.bash, c.umask, c.ifile, c.mailrun, c.att, c.concurrent); return std::string(b) + " nap=" + std::to_string(c.nap); }
+static bool cparse(const std::string &t, Case &c) { unsigned um = 022; int n = sscanf(t.c_str(), "row=%d osize=%ld esize=%ld exit=%d sig=%d bash=%d umask=%o ifile=%d mailrun=%d att=%d concurrent=%d", &c.row, &c.osize, &c.esize, &c.exitc, &c.sig, &c.bash, &um, &c.ifile, &c.mailrun, &c.att, &c.concurrent); c.umask = (int)um; size_t np = t.find(" nap="); c.nap = np == std::string::npos ? 0 : atoi(t.c_str() + np + 5); return n == 11; }
 
 // stdout speaks lower case and '\n', stderr upper case and '|': any mix of the two can be taken apart again
 static std::string stream(long size, bool err) { std::string s; s.reserve((size_t)size); long k = 0; while ((long)s.size() < size) { char ln[32]; int n = snprintf(ln, sizeof ln, "%ld", k++); for (int i = 0; i < n && (long)s.size() < size; i++) s += (char)((err ? 'A' : 'a') + (ln[i] - '0')); if ((long)s.size() < size) s += err ? '|' : '\n'; } return s; }
@@ -40,6 +40,7 @@ static Verdict judge(const Case &c) {
 	// (the writers read from a pipe: GNU cat copies regular file to regular file with copy_file_range(), which does not
 	//  take the file-position lock, so two such writers sharing one open file description overwrite each other -- the job's fault, not the executor's)
 	job += c.concurrent ? "cat o.dat | cat & cat e.dat | cat >&2 & wait\n" : "cat o.dat | cat; cat e.dat | cat >&2\n";
+	if (c.nap) { char nb[32]; snprintf(nb, sizeof nb, "sleep %d.%03d\n", c.nap / 1000, c.nap % 1000); job += nb; }
 	if (c.sig) job += "kill -" + std::to_string(c.sig) + " $$\nsleep 5\n"; else job += "exit " + std::to_string(c.exitc) + "\n";
 	spit(jd + "/job.sh", job);
 	std::string cmd = ". ./job.sh";
@@ -49,6 +50,8 @@ static Verdict judge(const Case &c) {
 	if (c.ifile) req += "X-ECHS-IFILE:" + wd + "/in.txt\n"; if (!of.empty()) req += "X-ECHS-OFILE:" + of + "\n"; if (!ef.empty()) req += "X-ECHS-EFILE:" + ef + "\n";
 	req += "ORGANIZER:echse@example.org\n"; if (c.att) req += "ATTENDEE:ops@example.org\n";
 	req += "END:VTODO\nEND:VCALENDAR\n";
+	// a napping job is started so that its run straddles a clock second (run times are computed from second and nanosecond parts)
+	if (c.nap) { struct timespec ts; clock_gettime(CLOCK_REALTIME, &ts); long want = 1000000000L - (long)c.nap * 500000L, wait = want - ts.tv_nsec; if (wait < 0) wait += 1000000000L; usleep((useconds_t)(wait / 1000)); }
 	XRun r = run_echsx(g_echsx, g_shim, wd, req, {}, 30.0);
 	if (g_trace) fprintf(stderr, "workdir %s\nstatus %d wall %.3f hung %d\n--- journal\n%s--- log\n%s--- mail (%d)\n%.400s\n", wd.c_str(), r.status, r.wall, r.hung, r.journal.c_str(), r.log.c_str(), r.mail_sent, r.mail.c_str());
 	if (!r.started) return done(Verdict::inconclusive("cannot start echsx"));
@@ -83,6 +86,8 @@ static Verdict judge(const Case &c) {
 	else if (xs != std::to_string(c.exitc) || !sg.empty()) return done(Verdict::fail(tag + "job exited with " + std::to_string(c.exitc) + ", journal says X-EXIT-STATUS:" + xs + (sg.empty() ? "" : " X-SIGNAL:" + sg)));
 	{ std::string a = jfield(r.journal, "DTSTART"), b = jfield(r.journal, "COMPLETED"); auto ep = [](const std::string &s) { int Y, M, D, h, m, sec; if (sscanf(s.c_str(), "%4d%2d%2dT%2d%2d%2dZ", &Y, &M, &D, &h, &m, &sec) != 6) return (int64_t)-1; return civil::to_ms(Y, (unsigned)M, (unsigned)D, (unsigned)h, (unsigned)m, (unsigned)sec) / 1000; };
 	  int64_t ta = ep(a), tb = ep(b); if (ta < (int64_t)r.t_before - 1 || tb > (int64_t)r.t_after + 1 || ta > tb) return done(Verdict::fail(tag + "journal times DTSTART:" + a + " COMPLETED:" + b + " do not bracket the run")); }
+	// the run time recorded for the job cannot exceed what the whole executor took (measured around it)
+	{ std::string rt = jfield(r.journal, "X-REAL-TIME"); if (!rt.empty()) { double t = atof(rt.c_str()); if (t < 0 || t > r.wall + 0.05) return done(Verdict::fail(tag + "journal says X-REAL-TIME:" + rt + " but the executor, job included, was gone after " + std::to_string(r.wall) + " s")); } }
 	Verdict v; v.nontrivial = c.osize + c.esize > 65536 || c.sig != 0 || c.exitc != 0;
 	v.classes.push_back("row/" + std::to_string(c.row)); v.classes.push_back(c.osize + c.esize > 65536 ? "output/>pipe" : c.osize + c.esize > 0 ? "output/small" : "output/none"); v.classes.push_back(c.sig ? "end/signal" : c.exitc ? "end/nonzero" : "end/zero");
 	return done(v);
@@ -103,10 +108,10 @@ void prop_gen(Ctx &c) {
 		if (c.shrink_exhausted()) return;
 		Case cs; int n = counter++;
 		cs.row = 1 + (n + (int)c.worker * 7) % 20;   // every row in turn, the rest is generated
-		int so = *R(0, 9), se = *R(0, 9);
+		int so = *R(0, 10), se = *R(0, 10);
 		cs.osize = so < 8 ? SZ[so] : *R(0, 300000); cs.esize = se < 8 ? SZ[se] : *R(0, 300000);
-		int end = *R(0, 9); if (end < 5) cs.exitc = 0; else if (end < 8) cs.exitc = *R(1, 255); else cs.sig = SIG[*R(0, 4)];
-		cs.bash = *R(0, 1); static const int UM[] = {022, 077, 0, 027, 0177}; cs.umask = UM[*R(0, 4)]; cs.ifile = *R(0, 1); cs.mailrun = *R(0, 3) == 0; cs.att = *R(0, 7) != 0; cs.concurrent = *R(0, 3) != 0;
+		int end = *R(0, 9); if (end < 5) cs.exitc = 0; else if (end < 8) cs.exitc = *R(1, 255); else cs.sig = SIG[*R(0, 5)];
+		cs.bash = *R(0, 2); static const int UM[] = {022, 077, 0, 027, 0177}; cs.umask = UM[*R(0, 5)]; cs.ifile = *R(0, 2); cs.mailrun = *R(0, 3) == 0; cs.att = *R(0, 7) != 0; cs.concurrent = *R(0, 3) != 0; if (*R(0, 5) == 0) cs.nap = *R(100, 600);
 		std::string txt = ctext(cs);
 		Verdict v = judge(cs);
 		c.st.record(txt, v);
